@@ -77,7 +77,11 @@ def _job(args):
                             qa = np.asarray(qv, dtype=float)
                         except (ValueError, TypeError):
                             qa = None
-                        if qa is None or qa.ndim == 0:
+                        if qa is None:
+                            continue
+                        if qa.ndim == 0:
+                            # sequential=True must give a series (one entry per candle), also when there are too few candles for a value
+                            bad('sequential-length', name, {'field': fn, 'scalar': True}, case, '%s(%s, sequential=True) on %d candles returned the scalar %r for field %s' % (name, kw, L, float(qa), fn))
                             continue
                         if qa.shape[0] != L:
                             bad('sequential-length', name, {'field': fn}, case, '%s(%s) field %s has %d entries for %d candles' % (name, kw, fn, qa.shape[0], L))
